@@ -39,8 +39,8 @@ def api_tail(rng, nreac, can_edit=True, can_export=True, extras=()):
     prev = None
     for j in range(k):
         r = rng.random()
-        if prev is not None and prev["s"] == "render" and r < 0.3:
-            st = dict(prev)  # identical repeat, no edit in between
+        if prev is not None and r < 0.3:
+            st = dict(prev)  # identical repeat (render, to_code or export over the older export), no edit in between
         elif r < 0.72:
             st = render_step(rng)
         elif r < 0.86 or not can_export:
@@ -518,7 +518,7 @@ def fam_random(rng, idx):
         fsteps.append(["thermal.naunet", "naunet"])
         nreac += len(block)
         net["cooling"] = [c for c, need in COOLING_NEEDS.items() if all(n in names for n in need) and rng.random() < 0.7]
-    if rng.random() < 0.25:
+    if rng.random() < 0.25 and not net.get("cooling"):
         net["allowed_species"] = [x for x in names if rng.random() < 0.85] or list(names)
     elif rng.random() < 0.4:
         he = sp.get("He", "He")
